@@ -235,6 +235,12 @@ def st1 (w : Nat) (x : Rat) : Rat := x * (stNum (w % 9) / ((w : Rat) + 2)) + ((w
 def st2 (w : Nat) (x y : Rat) : Rat := x * ((2 + (w : Rat)) / 3) - y * (1 / (2 + (w : Rat))) + (1 + (w : Rat)) / 5
 def fr (r : Rat) : String := s!"{r.num}/{r.den}"
 def frs (l : List Rat) : String := String.join (l.map (fun r => fr r ++ ","))
+def hex2 (b : UInt8) : String :=
+  let d := Nat.toDigits 16 b.toNat
+  String.ofList (if d.length < 2 then '0' :: d else d)
+def segStr (l : List ImathVerif.Seg) : String := String.join (l.map (fun s => match s with
+  | .lit t => "L" ++ String.join (t.map (fun c => hex2 c.toNat.toUInt8)) ++ "|"
+  | .tok i w f p => s!"T{i}:{w}:{f}:{p}|"))
 def excName : ImathVerif.Exc → String
   | .domainError => "domainError" | .invalidArgument => "invalidArgument" | .overflowError => "overflowError"
   | .underflowError => "underflowError" | .outOfRange => "outOfRange" | .logicError => "logicError"
@@ -257,7 +263,7 @@ def lean_tv(chk, binary, tag, index, n=4, idx_deps=()):
     for l in out.split("\n"):
         if l.startswith("RATSKIP"):
             skipped += 1
-        m = re.match(r"RATCASE (\S+) IN(.*?) OUT (exc=\S+ vals=\S* ints=\S*)", l)
+        m = re.match(r"RATCASE (\S+) IN(.*?) OUT (exc=\S+ vals=\S* ints=\S*(?: segs=\S*)*)", l)
         if m and m.group(1) in meta:
             cases.append((m.group(1), m.group(2).split(), m.group(3)))
     if not cases:
@@ -265,6 +271,13 @@ def lean_tv(chk, binary, tag, index, n=4, idx_deps=()):
         chk.fail("lean-tv:" + tag, "lean-tv:" + tag, "Lean-side translator validation produced no cases", {"output": out[-1500:]}, False)
         return False
     modules = sorted(set(meta[c[0]]["module"] for c in cases))
+    # the emitted modules must be compiled before the scratch file can import them
+    rcb, outb = lib.lake_build(["ImathVerif.Gen.%s" % m for m in modules])
+    if rcb != 0:
+        chk.oblige("lean-tv:%s" % tag, "translation-validation", False, "generated modules do not compile")
+        chk.fail("lean-tv:" + tag, "gen-compile:" + tag, "the regenerated Lean modules do not compile (emitter/translator problem)",
+                 {"lean_errors": [l for l in outb.split("\n") if "error" in l][:10]}, False)
+        return False
     lines = ["import ImathVerif.Gen.%s" % m for m in modules] + ["open ImathVerif ImathVerif.Gen", LEAN_TV_PRELUDE]
     for i, (fn, ins, _) in enumerate(cases):
         d = meta[fn]
@@ -289,6 +302,7 @@ def lean_tv(chk, binary, tag, index, n=4, idx_deps=()):
         outs = [x for x in (d.get("outs") or "").split(",") if x]
         def item(v, kind):
             if kind == "-": return ("[%s]" % v, None)
+            if kind == "S": return (None, '(" segs=" ++ segStr %s)' % v)
             if kind == "B": return (None, '(if %s then "1," else "0,")' % v)
             if kind == "I": return (None, '(toString %s ++ ",")' % v)
             return ("[" + ", ".join("%s.%s" % (v, f) for f in LEAVES[kind]) + "]", None)
